@@ -41,7 +41,8 @@ CLAIMED["C09"] = (SCHED_TECH,
 CLAIMED["C19"] = (SCHED_TECH,
     "C19_reports (every State ever emitted satisfies Pending = Ready + Waiting + executing, 0 <= executing <= Concurrency, IdleWorkers = Concurrency - "
     "executing, Concurrency = limit) and C19_stop (no report after the loop finished) for every run of the gated model; C19_refuted_ungated keeps the repaired "
-    "defect as a witness. Tie: every State emitted by the real scheduler (flush down to 1ns) must equal the model's counters at that point of the replay.",
+    "defect as a witness. Tie: every State emitted by the real scheduler (flush down to 1ns) must equal the model's counters at that point of the replay in the gated model; an execution that only the ungated model "
+    "accepts is reported as an over-dispatch.",
     SCHED_NOTE + " C19_bounds adds Waiting >= 0, Pending <= submitted, Waiting <= submitted-with-dependencies for every report in every history.", "DESIGN.md §7 C19")
 CLAIMED["C01"] = (SCHED_TECH,
     "C01_order_once: in every history of every run (any DAG incl. duplicate dependencies and dependencies already finished at enqueue time, any N, both error "
@@ -58,8 +59,9 @@ CLAIMED["C05"] = (SCHED_TECH,
 CLAIMED["C06"] = (SCHED_TECH,
     "C06_no_leak: a reachable state where no caller/loop/worker action is enabled is final (Wait returned, loop finished, every worker exited), C06_post_enabled: a "
     "worker can always hand over its result (at most N-1 other results outstanding), for the gated code; C06_refuted_ungated keeps the repaired defect as a machine-checked "
-    "witness (a stuck state with a worker blocked on donec). Tie: every observed execution must end in the model's final state (all WExit events present); goroutine dumps "
-    "after quiescence.", SCHED_NOTE, "DESIGN.md §7 C06")
+    "witness (a stuck state with a worker blocked on donec). Tie: every observed execution must replay in the gated model and end in its final state (all WExit events present); an execution that only the "
+    "model without the dispatch gate accepts is an observed over-dispatch and is reported with that execution as the failing input (gating is decided by behaviour, not by the spelling of the condition); "
+    "goroutine dumps after quiescence, a leak verdict needs a stable dump of blocked scheduler goroutines.", SCHED_NOTE, "DESIGN.md §7 C06")
 CLAIMED["C12"] = (SCHED_TECH + " + Go race detector runs of the harness",
     "Partial, labelled so. Proved for every run of the model: only the loop writes job state/ready/counters/s.err (C12_loop_only), Enqueue touches only the enqueue "
     "channel (C12_enqueue), workers write only their slot and donec (C12_worker_only), the invalid flag a worker reads is never written after the job was released "
